@@ -33,126 +33,70 @@ def run(model, rep):
                  ('C09.ORD', 'reads of tainted are dominated by resolve_names'), ('C09.OWN', 'taint writes are monotone')]:
         rep.rule(r, t)
 
-    # ---------------- TRIG
-    stores = taint_stores(model)
-    trig_list_ok = False
-    star = exec_node = False
-    for (fi, n) in stores:
-        if not (isinstance(n.value, ast.Constant) and n.value.value is True):
-            continue
-        F = Facts(fi.node)
-        facts = F.facts_at(n)
-        if facts is None:
-            continue
-        tgt = src(n.targets[0].value)
-        defs = local_defs(fi.node)
-        on_module = tgt.startswith('get_global_namespace(') or any(k == 'isinstance(%s, ast.Module)' % tgt and p for (k, p) in facts)
-        where = fi.loc(n)
-        for (k, p) in facts:
-            if k.startswith('<') or not p:
-                continue
-            t = ast.parse(k, mode='eval').body
-            if isinstance(t, ast.Compare) and isinstance(t.ops[0], ast.In) and isinstance(t.comparators[0], (ast.List, ast.Tuple, ast.Set)):
-                try:
-                    names = set(literal(t.comparators[0]))
-                except ValueError:
-                    continue
-                if names & REQUIRED_TRIGGERS:
-                    missing = REQUIRED_TRIGGERS - names
-                    is_builtin_arm = any(pp and 'dir(builtins)' in kk for (kk, pp) in facts)
-                    notbuiltin = [x for x in names if x not in dir(builtins)]
-                    rep.note('trigger list %s at %s' % (sorted(names), where))
-                    trig_list_ok = True
-            if isinstance(t, ast.Compare) and isinstance(t.ops[0], ast.Eq) and isinstance(t.comparators[0], ast.Constant) and t.comparators[0].value == '*':
-                star = True
-                rep.check(on_module, 'C09.TRIG', where, 'import * taints', 'written on the module node', 'star-import taint is not written on the module node', key='C09.TRIG|star')
-            if isinstance(t, ast.Call) and src(t.func) == 'isinstance' and src(t.args[1]).endswith('.Exec'):
-                exec_node = True
-                rep.check(on_module, 'C09.TRIG', where, 'exec statement taints', 'written on the module node', 'exec-statement taint is not written on the module node', key='C09.TRIG|exec')
-    if not trig_list_ok:
-        rep.note('no literal trigger list found next to a taint store (the trigger positions below decide the behaviour)')
-    if not exec_node:
-        rep.violation('C09.TRIG', 'src/python_minifier/rename/resolve_names.py', 'exec statement', 'an exec statement (Python 2 tree) no longer sets the taint flag', key='C09.TRIG|exec')
+    # ---------------- TRIG: the whole bind + resolve run on probe modules with a trigger in every position (incl. star import)
     trigger_positions(model, rep)
-    rep.floor('C09.TRIG', 21)
+    rep.note('an `exec` statement exists only in Python 2 trees; this interpreter cannot produce one, the clause is not decided here')
+    rep.floor('C09.TRIG', 17)
 
-    # ---------------- GATE under hypothesis
-    P = Pipeline(model, hypothesis={'module.tainted': True})
-    P0 = Pipeline(model)
-    mi = P.fi
-    gates = {'allow_rename_locals': 'rename_locals', 'allow_rename_globals': 'rename_globals'}
-    gate_calls = {}
-    for gname, flag in gates.items():
-        st = P.stage(gname)
-        gate_calls[gname] = st
-        if st.facts is None:
-            rep.violation('C09.GATE', mi.loc(st.call), src(st.call), 'permission gate is unreachable when the module is tainted: bindings keep their default permission', key='C09.GATE|gate|' + gname)
-            continue
-        # the argument in the flag position
-        t = st.targets[0][0]
-        idx = t.positional.index(flag) if flag in t.positional else None
-        arg = st.call.args[idx] if idx is not None and idx < len(st.call.args) else next((k.value for k in st.call.keywords if k.arg == flag), None)
-        const_false = isinstance(arg, ast.Constant) and arg.value is False
-        fact_false = isinstance(arg, ast.Name) and (arg.id, False) in st.facts and ('<const:%s>' % arg.id, True) in st.facts
-        rep.check(const_false or fact_false, 'C09.GATE', mi.loc(st.call), src(st.call), '%s is the constant False here when module.tainted' % src(arg),
-                  'when the module is tainted, %s still receives the caller\'s %s switch: names can be renamed' % (gname, flag), key='C09.GATE|gate|' + gname)
-    # stages reachable under the hypothesis
-    after_gates = lambda st: st.facts is not None and all(('<did:%s>' % g, True) in st.facts for g in gates)
-    resolved = lambda st: st.facts is not None and ('<did:resolve_names>', True) in st.facts
-    n = 0
-    for st in P.stages:
-        if st.facts is None:
-            if st.name == 'remove_no_arg_exception_call':
-                rep.ok('C09.GATE', mi.loc(st.call), src(st.call), 'unreachable when tainted', key='C09.GATE|stage|' + st.name)
-            continue
-        S = st.summary
-        n += 1
-        if st.name in gates or st.name in ('bind_names', 'resolve_names', 'add_parent', 'add_namespace', 'unparse', '_find_shebang'):
-            continue
-        if resolved(st) and 'bindings' in S.ann_add:
-            rep.violation('C09.GATE', mi.loc(st.call), src(st.call), 'stage %s creates bindings after name resolution and is reachable when the module is tainted: the new bindings '
-                          'are born renamable, so a new name is introduced into a scope that exec/eval/locals() can see' % st.name, key='C09.GATE|stage|' + st.name)
-            continue
-        if st.name == 'remove_no_arg_exception_call':
-            rep.violation('C09.GATE', mi.loc(st.call), src(st.call), 'exception-bracket removal relies on builtin resolution and is reachable when the module is tainted', key='C09.GATE|stage|' + st.name)
-            continue
-        if resolved(st) and (S.asdl or S.builds) and st.name not in NAME_NEUTRAL_STAGES and st.name != 'rename':
-            rep.violation('C09.GATE', mi.loc(st.call), src(st.call), 'tree-rewriting stage %s runs after name resolution when tainted (stores %s)' % (st.name, sorted(S.asdl)[:5]), key='C09.GATE|stage|' + st.name)
-            continue
-        if st.name == 'rename':
-            ok = after_gates(st)
-            rep.check(ok, 'C09.GATE', mi.loc(st.call), src(st.call), 'data-gated renamer runs only after both permission gates', 'renamer can run before the permission gates', key='C09.GATE|stage|rename')
-        elif resolved(st):
-            rep.ok('C09.GATE', mi.loc(st.call), src(st.call), 'changes no name', key='C09.GATE|stage|' + st.name)
-    # the gates pin everything when their switch is False (abstract evaluation)
+    # ---------------- GATE: minify() itself evaluated for a tainted module (pmstatic.apirun, every stage a recorder)
+    from .. import apirun
+    mi = model.func('python_minifier.minify')
+    options = [p for p in mi.params if p not in ('source', 'filename', 'preserve_locals', 'preserve_globals')]
+    for (label, kw) in (('default options', {}), ('every option on', {p: True for p in options}), ('renaming and hoisting on, the rest off', dict({p: False for p in options}, rename_locals=True, rename_globals=True, hoist_literals=True))):
+        for tainted in (True, False):
+            r = apirun.run(model, kwargs=dict(kw), tainted=tainted)
+            if r.outcome[0] != 'return':
+                raise AnalysisError('UNDECIDED: minify(%s) on a %s module -> %s' % (label, 'tainted' if tainted else 'clean', r.outcome))
+            names = r.names()
+            what = 'minify(%s) on a %s module' % (label, 'tainted' if tainted else 'clean')
+            for gname in ('allow_rename_locals', 'allow_rename_globals'):
+                ev = r.event(gname)
+                if ev is None:
+                    rep.violation('C09.GATE', mi.loc(), '%s: %s' % (what, gname), 'the permission gate is not run: bindings keep their default permission', key='C09.GATE|gate|%s|%s|%s' % (gname, label, tainted))
+                    continue
+                t = model.funcs.get(apirun.imported_callables(model).get(gname, ('', ''))[1])
+                flag = 'rename_locals' if gname.endswith('locals') else 'rename_globals'
+                idx = t.positional.index(flag) if t is not None and flag in t.positional else 1
+                (_k, _n, a, k_) = ev
+                switch = k_.get(flag, a[idx] if idx < len(a) else '<not passed>')
+                if tainted:
+                    rep.check(switch is False, 'C09.GATE', mi.loc(), '%s: %s(switch=%r)' % (what, gname, switch), 'the switch is False: every binding is pinned',
+                              'for a tainted module %s still receives the switch %r: names can be renamed' % (gname, switch), key='C09.GATE|gate|%s|%s|tainted' % (gname, label))
+                else:
+                    want = bool(kw.get(flag, mi.defaults()[flag].value))
+                    rep.check(switch is want, 'C09.GATE', mi.loc(), '%s: %s(switch=%r)' % (what, gname, switch), 'the caller\'s switch',
+                              'for a clean module %s receives %r instead of the caller\'s %s=%r' % (gname, switch, flag, want), key='C09.GATE|gate|%s|%s|clean' % (gname, label))
+            if tainted:
+                for stage in ('rename_literals', 'remove_no_arg_exception_call'):
+                    rep.check(stage not in names, 'C09.GATE', mi.loc(), '%s: %s %s' % (what, stage, 'runs' if stage in names else 'does not run'), 'not run for a tainted module',
+                              '%s runs although the module is tainted: %s' % (stage, 'a new name is introduced into a scope that exec/eval/locals() can see' if stage == 'rename_literals' else 'it relies on the resolution of builtin names'),
+                              key='C09.GATE|stage|%s|%s' % (stage, label))
+                order_ok = 'rename' in names and all(g_ in names and names.index(g_) < names.index('rename') for g_ in ('allow_rename_locals', 'allow_rename_globals'))
+                rep.check(order_ok, 'C09.GATE', mi.loc(), '%s: rename after both permission gates' % what, 'data-gated renamer runs only after the gates', 'the renamer can run before the permission gates', key='C09.GATE|stage|rename|' + label)
+            # ORD: the taint flag is read only after it has been computed
+            seq = [t_ for t_ in r.trace if t_[0] in ('call', 'stage', 'read')]
+            first_read = next((i_ for i_, t_ in enumerate(seq) if t_[0] == 'read' and t_[1] == 'tainted'), None)
+            resolved_at = next((i_ for i_, t_ in enumerate(seq) if t_[0] == 'call' and t_[1] == 'resolve_names'), None)
+            bound_at = next((i_ for i_, t_ in enumerate(seq) if t_[0] == 'call' and t_[1] == 'bind_names'), None)
+            if tainted:
+                rep.check(first_read is not None and resolved_at is not None and bound_at is not None and first_read > resolved_at > bound_at, 'C09.ORD', mi.loc(), '%s: first read of module.tainted' % what,
+                          'after bind_names and resolve_names', 'the taint flag is read before it has been computed (always False)' if first_read is not None else 'the taint flag is never read', key='C09.ORD|' + label)
+    # the gates pin everything when their switch is False (abstract evaluation on descriptors and on a real tree)
     gate_enum(model, rep)
-    # the renamer only renames bindings that are allowed
-    na = model.func('python_minifier.rename.renamer.NameAssigner.__call__')
-    NF = Facts(na.node)
-    for c in calls(na.node):
-        if isinstance(c.func, ast.Attribute) and c.func.attr == 'rename':
-            facts = NF.facts_at(c)
-            ok = facts is not None and ('%s.allow_rename' % src(c.func.value), True) in facts
-            rep.check(ok, 'C09.GATE', na.loc(c), src(c), 'only under binding.allow_rename', 'a binding is renamed without consulting its permission', key='C09.GATE|allow')
-    rep.floor('C09.GATE', 8)
+    gate_tree(model, rep, 'C09.GATE', False, False, [], lambda kind, name: True, 'permission gates with both rename switches off (what minify() passes for a tainted module)', 'C09.GATE|tree')
+    rep.floor('C09.GATE', 20)
+    rep.floor('C09.ORD', 3)
 
-    # ---------------- ORD / OWN
-    for n_ in walk_own(mi.node):
-        if isinstance(n_, ast.Attribute) and n_.attr == 'tainted' and isinstance(n_.ctx, ast.Load):
-            facts = P0.F.facts_at(n_)
-            ok = facts is not None and ('<did:resolve_names>', True) in facts and ('<did:bind_names>', True) in facts
-            rep.check(ok, 'C09.ORD', mi.loc(n_), 'read of %s' % src(n_), 'after bind_names and resolve_names', 'taint is read before it has been computed (always False)', key='C09.ORD|%d' % len(rep.obligations))
-    rep.floor('C09.ORD', 2)
+    # ---------------- OWN: once set, the flag stays set - evaluated: a module with a trigger followed by much unrelated code ends tainted (see TRIG probes
+    # 'trigger first, then more code'); a syntactic scan reports any store of a non-constant to .tainted
+    stores = taint_stores(model)
     for (fi, n_) in stores:
         v = n_.value
-        if isinstance(v, ast.Constant) and v.value is True:
-            rep.ok('C09.OWN', fi.loc(n_), src(n_), 'monotone write', key='C09.OWN|%s|True' % fi.qual)
-        elif isinstance(v, ast.Constant) and v.value is False:
-            init = fi.qual.endswith('NameBinder.__call__')
-            rep.check(init, 'C09.OWN', fi.loc(n_), src(n_), 'initialisation before binding', 'taint is reset outside the binder\'s initialisation', key='C09.OWN|%s|False' % fi.qual)
+        if isinstance(v, ast.Constant) and isinstance(v.value, bool):
+            rep.ok('C09.OWN', fi.loc(n_), src(n_), 'constant write', key='C09.OWN|%s|%r' % (fi.qual, v.value))
         else:
             rep.violation('C09.OWN', fi.loc(n_), src(n_), 'taint written with a computed value', key='C09.OWN|%s|computed' % fi.qual)
-    rep.floor('C09.OWN', 2)  # one initialisation, at least one trigger write; helpers may merge the trigger writes
+    rep.floor('C09.OWN', 2)
 
 
 def gate_enum(model, rep):
@@ -195,6 +139,7 @@ TAINT_PROBES = [
     ('lambda', "f = lambda: globals()\n", True),
     ('argument of a call', "print(sorted(vars()))\n", True),
     ('star import', "from m import *\n", True),
+    ('trigger first, then more code', "x = eval('1')\ndef f(a):\n    return a\nclass K:\n    y = 2\nz = [i for i in f(3)]\nprint(len(z))\n", True),
     ('class attribute of the same name plus a genuine use', "class E:\n    def eval(self, s):\n        return s\n    __call__ = eval\ndef run(e):\n    return eval(e)\n", True),
     ('class attribute named vars plus a genuine use', "class K:\n    vars = (1, 2)\n    req = frozenset(vars)\ndef show(o):\n    return vars(o)\n", True),
     ('control: no trigger', "x = len(y)\n", False),
@@ -202,6 +147,74 @@ TAINT_PROBES = [
     ('control: attribute named eval', "x = obj.eval('1')\n", False),
     ('control: local variable named vars', "def f():\n    vars = 1\n    return vars\n", False),
 ]
+
+
+GATE_PROBE = '''
+import os
+def f(xs, scale):
+    total = sum(e * scale for e in xs)
+    text = ', '.join([str(r) for r in xs])
+    g = lambda q: [w for w in q]
+    @deco(lambda d: d)
+    def inner(p=(lambda z: z), *rest, **kw):
+        with open(p) as fh:
+            for line in fh:
+                yield line
+    class K:
+        m = [c for c in xs]
+        def meth(self, v):
+            return {k: v for k in v}
+    try:
+        pass
+    except Exception as err:
+        print(err)
+    return max({c2 for c2 in xs}) + 2, (yy := total)
+top = [t for t in f([], 1)]
+__all__ = ['f', 'exported_elsewhere']
+'''
+
+
+def gate_tree(model, rep, rule, switch_locals, switch_globals, preserve, expect_pinned, what, key):
+    """mapper + binder + resolver + the two permission gates run on a probe with scopes nested inside expressions, decorators, defaults, class
+    bodies: afterwards expect_pinned(scope kind, binding name) says which bindings must be pinned."""
+    from .c03 import to_obj, MAPPER, R
+    from ..absnodes import set_parents, walk
+    tree = ast.parse(GATE_PROBE)
+    mod = to_obj(tree, {})
+    set_parents(mod)
+    hooks = dict(__import__('pmstatic.absnodes', fromlist=['std_hooks']).std_hooks(), **{'dir': lambda I, e, args, kw, env: dir(builtins)})
+    I = Interp(model, MAPPER, hooks, max_depth=600)
+    I.MAX_PATHS = 8
+    UTIL = R + 'util.'
+
+    def thunk():
+        I.call_function(MAPPER + '.add_namespace', [mod])
+        I.call_function(R + 'bind_names.bind_names', [mod])
+        I.call_function(R + 'resolve_names.resolve_names', [mod])
+        I.call_function(UTIL + 'allow_rename_locals', [mod, switch_locals, list(preserve)])
+        I.call_function(UTIL + 'allow_rename_globals', [mod, switch_globals, list(preserve)])
+    res = I.explore(thunk)
+    if len(res) != 1 or res[0][0][0] != 'return':
+        raise AnalysisError('UNDECIDED: gates on the nested-scope probe -> %s %s' % ([r[0] for r in res][:2], res[0][2][:3]))
+    wrong = []
+    n = 0
+    for o in walk(mod):
+        bs = o.attrs.get('bindings')
+        if not isinstance(bs, list):
+            continue
+        for b in bs:
+            if not isinstance(b, Obj):
+                continue
+            name = b.attrs.get('_name', b.attrs.get('name'))
+            pinned = b.attrs.get('_allow_rename') is False
+            n += 1
+            want = expect_pinned(o.cls, name)
+            if want is not None and pinned != want:
+                wrong.append('%s %r in a %s scope is %s' % ('binding', name, o.cls, 'pinned' if pinned else 'renamable'))
+    if n < 25:
+        raise AnalysisError('the nested-scope probe produced only %d bindings' % n)
+    rep.check(not wrong, rule, 'src/python_minifier/rename/util.py', '%s on a module with %d bindings in scopes nested inside expressions, decorators, defaults and class bodies' % (what, n),
+              'every binding is as required', '; '.join(wrong[:4]), key=key, cells=n)
 
 
 def trigger_positions(model, rep):
